@@ -27,6 +27,8 @@ def write_cfg(path, spec='Spec', constants=None, invariants=(), properties=(), c
                 v = 'TRUE' if v else 'FALSE'
             elif isinstance(v, str):
                 v = '"%s"' % v
+            elif isinstance(v, (list, tuple, set)):
+                v = '{' + ', '.join('"%s"' % x for x in v) + '}'
             lines.append(f'  {k} = {v}')
     if constraint:
         lines.append(f'CONSTRAINT {constraint}')
